@@ -761,3 +761,33 @@ func init() {
 		r.Floor("stores to HashJoinExecutor.index in Next", ns, 2)
 	})
 }
+
+func init() {
+	reg("C11-R6", "an index join never drops a filter: IndexJoinExecutor reads the right table itself and does not run the right plan, so the optimizer may build NewIndexJoinPlanNode only where the right plan is known to filter nothing — once the edge `SeqScanPlanNode(right or its projection child).GetPredicate() == nil` is removed, the constructor call is unreachable", func(w *World, r *Report) {
+		ij := w.FuncObj("execution/plans", "NewIndexJoinPlanNode")
+		getPred := w.MethodObj("execution/plans", "SeqScanPlanNode", "GetPredicate")
+		n := 0
+		for _, fn := range w.RepoFuncs {
+			if w.IsTestFunc(fn) || fn.Parent() != nil {
+				continue
+			}
+			sites := sitesCalling(fn, ij)
+			if len(sites) == 0 {
+				continue
+			}
+			n += len(sites)
+			// the guard: a nil test of GetPredicate() of a *SeqScanPlanNode obtained by type assertion (comma-ok or not)
+			isPredOfSeqScan := func(v ssa.Value) bool {
+				return DependsOn(v, func(x ssa.Value) bool {
+					c, ok := x.(*ssa.Call)
+					return ok && CalleeObj(c) == getPred
+				})
+			}
+			noFilter := nilCompareCut(isPredOfSeqScan, true) // remove the edge on which the predicate is nil
+			nGuard := countCutEdges(fn, []EdgeCut{noFilter})
+			wit := (&PathQ{Fn: fn, Cut: []EdgeCut{noFilter}, Target: InstrCallsObj(ij)}).FromEntry()
+			r.Check(wit == nil && nGuard > 0, funcKey(fn)+":index-join-only-over-an-unfiltered-right-scan", "the index join candidate is built only when the right plan is a sequential scan without predicate", "NewIndexJoinPlanNode reachable without the test that the right plan filters nothing (its selections would be dropped): "+w.DescribeWitness(fn, wit))
+		}
+		r.Floor("NewIndexJoinPlanNode call sites", n, 1)
+	})
+}
